@@ -35,6 +35,18 @@ package reader
 //@   panics never
 //@   inline
 
+// ---- C01 / C04: the record of a dropped collection is removed under its source id ---------------------------------
+// removedColl: the ids RemoveCollection was called with (the handler's records are keyed by SOURCE collection id)
+//@ ghost var removedColl seq[int64]
+//@ func (*replicateChannelHandler).RemoveCollection
+//@   props C01 C04
+//@   requires r != nil
+//@   ensures [the-record-of-that-collection-is-gone] !(collectionID in r.collectionRecords)
+//@   ensures [records-of-other-collections-are-untouched] forall k int64 :: k != collectionID ==> (k in r.collectionRecords) == old(k in r.collectionRecords) && r.collectionRecords[k] == old(r.collectionRecords[k])
+//@   ghostset return removedColl := removedColl ++ [collectionID]
+//@   ensures removedColl == old(removedColl) ++ [collectionID]
+//@   modifies r.collectionRecords[*], r.collectionNames[*], r.closeStreamFuncs[*], removedColl
+
 // what every part of handlePack keeps: the last tick is only changed by the final bookkeeping, the clock only grows
 //@ spec hpInv(r *replicateChannelHandler) bool = tsWf(as(theTSM(), "*tsManager")) && hpLts(r) == old(hpLts(r)) && hpCts(r) >= old(hpCts(r)) && hpLts(r) <= hpCts(r) && hpCts(r) < 4611686018427387904
 // timestamps are TSO hybrid timestamps (physical ms * 2^18 + logical): far below 2^62
@@ -48,7 +60,7 @@ package reader
 // timestamps are TSO hybrid timestamps (physical ms * 2^18 + logical), far below 2^62: shifting never wraps
 //@   assumes hpCts(r) < 4611686018427387904 && tsoBounded(pack)
 //@   splitposts
-//@   private tsInfo.* tsManager.* umaps(string;*tsInfo) replicateChannelHandler.replicateID replicateChannelHandler.targetPChannel out outChannel outTask outCollection api.ReplicateMsg.*
+//@   private tsInfo.* tsManager.* umaps(string;*tsInfo) replicateChannelHandler.replicateID replicateChannelHandler.targetPChannel out outChannel outTask outCollection api.ReplicateMsg.* removedColl
 //@   ensures [envelopes-that-existed-before-the-call-are-untouched] preservedStruct(api.ReplicateMsg)
 //@   ensures [the-last-tick-never-decreases] hpLts(r) >= old(hpLts(r))
 //@   ensures [the-clock-never-goes-back] hpCts(r) >= old(hpCts(r))
